@@ -15,9 +15,7 @@ package c06
 
 import (
 	"fmt"
-	"os"
 	"reflect"
-	rpprof "runtime/pprof"
 	"sort"
 	"strings"
 
@@ -63,9 +61,10 @@ var (
 )
 
 // Name expressions: a function, two functions, a source file, a binary, an
-// alternation, an anchored name, everything, every source file, nothing.
+// alternation, an anchored name, everything, every source file, nothing, a
+// function name or another function's source file.
 var (
-	nameRx      = []string{"a", "b", "f2", "m1", "m2", "a|b", "^a$", ".", "go", "x"}
+	nameRx      = []string{"a", "b", "f2", "m1", "m2", "a|b", "^a$", ".", "go", "x", "a|f2"}
 	nameRxPair  = []string{"a", "b", "f2", "m1", "a|b", "^a$", "."}
 	nameRxSmall = []string{"a", "b", "m1", "f2"}
 	nameKinds   = []string{"focus", "ignore", "hide", "show", "show_from"}
@@ -286,14 +285,6 @@ func e2eSettings(thorough bool) []Filt {
 
 // Run is the check.
 func Run(c *vk.Ctx) {
-	if pf := os.Getenv("C06_CPUPROF"); pf != "" {
-		f, _ := os.Create(pf)
-		rpprof.StartCPUProfile(f)
-		defer rpprof.StopCPUProfile()
-	}
-	if dbg() {
-		return
-	}
 	k := &checker{c: c}
 	dSingle, dPairEach, dPairSum, dBinary := 3, 2, 4, 5
 	if c.Thorough() {
@@ -305,9 +296,9 @@ func Run(c *vk.Ctx) {
 	nset, tset, xset, eset := nameSettings(c.Thorough()), tagSettings(), crossSettings(), e2eSettings(c.Thorough())
 	c.Note(fmt.Sprintf("names: alphabet 7 kinds (a b c ab ?1 ?2 n; binaries m1 m2), all inline groupings; single stacks depth<=%d (%d) x 4 id/sharing/address schemes (depth 4: dense ids only), pairs of stacks (6 kinds) of depth<=%d each and <=%d together sharing equal locations x 2 schemes (5 frames together: dense ids only), deep single stacks over (a b ?1) depth<=%d (%d); x %d name settings (5 options alone x %d expressions, all 10 pairs x %d^2, triple focus+ignore+hide x %d^3); "+
 		"tags: %d label sets, all ordered pairs%s x %d tag settings (4 options alone, all pairs; %d tag expressions, %d key expressions); cross: %d settings (name option x tag option); frameless: samples without frames; "+
-		"e2e: %d settings x (proto, proto+relative_percentages, traces) on stacks of depth<=2 and pairs of depth<=1, top totals for focus/ignore partitions, interactive 'proto F -I'",
+		"e2e: %d settings x (proto, proto+relative_percentages, traces) on stacks of depth<=%d and pairs of depth<=1, top totals for focus/ignore partitions, interactive 'proto F -I'",
 		dSingle, len(single7), dPairEach, dPairSum, dBinary, len(shapes3), len(nset), len(nameRx), pairMenuLen(c.Thorough()), len(nameRxSmall),
-		len(labelSets), map[bool]string{false: "", true: " and triples"}[c.Thorough()], len(tset), len(tagVals), len(tagKeyRx), len(xset), len(eset)))
+		len(labelSets), map[bool]string{false: "", true: " and triples"}[c.Thorough()], len(tset), len(tagVals), len(tagKeyRx), len(xset), len(eset), map[bool]int{false: 2, true: 3}[c.Thorough()]))
 
 	var idx int64
 	mineCount := 0
